@@ -19,9 +19,13 @@ def new : LWWRegister := ⟨none, 0, 0, false⟩
 
 /-- Set(value, timestamp, nodeID): a write whose stamp loses against the stored one under Merge's
     order (`ts < r.timestamp || (ts == r.timestamp && nodeID < r.nodeID)`) returns a clone of the
-    receiver (fix 670e96a); otherwise the new write, marked dirty -/
+    receiver (fix 670e96a); a write by the SAME node under the SAME timestamp as the stored write is
+    ordered right after it (`ts++`, unless ts is MaxInt64), so that one stamp never names two writes;
+    otherwise the new write; marked dirty -/
 def set (r : LWWRegister) (v : Nat) (ts : Int) (n : Nat) : LWWRegister :=
-  if ts < r.timestamp ∨ (ts = r.timestamp ∧ n < r.nodeID) then r else ⟨some v, ts, n, true⟩
+  if ts < r.timestamp ∨ (ts = r.timestamp ∧ n < r.nodeID) then r
+  else if ts = r.timestamp ∧ n = r.nodeID ∧ ts < 9223372036854775807 then ⟨some v, ts + 1, n, true⟩
+  else ⟨some v, ts, n, true⟩
 
 /-- the test of Merge: `o.timestamp > r.timestamp || (o.timestamp == r.timestamp && o.nodeID > r.nodeID)` -/
 def otherWins (r o : LWWRegister) : Bool :=
@@ -50,6 +54,36 @@ inductive Reachable : LWWRegister → Prop
   | delta {r d} : Reachable r → r.delta? = some d → Reachable d
   | resetDelta {r} : Reachable r → Reachable r.resetDelta
   | clone {r} : Reachable r → Reachable r.clone
+
+/-- A system of replicas (as for MVRegister): `replica n` is the register of the node whose id is `n`,
+    the only place where `Set(·, ·, n)` is called; `pool` holds every other register value in
+    existence (snapshots, messages in flight, deltas, results of arbitrary merges). -/
+structure World where
+  replica : Nat → LWWRegister
+  pool : List LWWRegister
+
+def World.has (w : World) (x : LWWRegister) : Prop := x ∈ w.pool ∨ ∃ n, x = w.replica n
+
+def World.setReplica (w : World) (n : Nat) (x : LWWRegister) : World :=
+  { w with replica := fun k => if k = n then x else w.replica k }
+
+/-- all executions: local writes with any value and any timestamp below MaxInt64 (time.Time.UnixNano
+    of any date before the year 2262), delivery of ANY existing value to any replica, snapshots /
+    deltas / clones, merges of any two existing values -/
+inductive World.Reachable : World → Prop
+  | init : World.Reachable ⟨fun _ => new, []⟩
+  | set {w} (n v : Nat) (ts : Int) : World.Reachable w → ts < 9223372036854775807 →
+      World.Reachable (w.setReplica n ((w.replica n).set v ts n))
+  | deliver {w} (n : Nat) (m : LWWRegister) : World.Reachable w → w.has m →
+      World.Reachable (w.setReplica n ((w.replica n).merge m))
+  | resetDelta {w} (n : Nat) : World.Reachable w → World.Reachable (w.setReplica n (w.replica n).resetDelta)
+  | snapshot {w} (x : LWWRegister) : World.Reachable w → w.has x → World.Reachable { w with pool := x.clone :: w.pool }
+  | delta {w} (x d : LWWRegister) : World.Reachable w → w.has x → x.delta? = some d →
+      World.Reachable { w with pool := d :: w.pool }
+  | mergeAny {w} (x y : LWWRegister) : World.Reachable w → w.has x → w.has y →
+      World.Reachable { w with pool := x.merge y :: w.pool }
+  | resetAny {w} (x : LWWRegister) : World.Reachable w → w.has x →
+      World.Reachable { w with pool := x.resetDelta :: w.pool }
 
 end LWWRegister
 end GoaktVerif.Model.Crdt
